@@ -125,6 +125,13 @@ def run(ctx):
     user = lambda const: ('F', fx, [units.var(fv, 'v', 'i'), units.var(g2, 'e', 'i', None, const)], [('a', fv, [g2])])
     add_group('two-configurations-valid', [progd, conf1, conf2, user(True)], None)
     add_group('two-configurations-external-not-const', [progd, conf1, conf2, user(False)], 'external-not-const')
+    # a function and an unrelated program that uses the function's name as a variable: undeclared there, whichever of
+    # the two is analysed first
+    fn, fa, pm, pl = 960, 961, 962, 963
+    func = ('U', fn, [units.var(fa, 'i', 'i')], [('a', fn, [fa])])
+    add_group('function-name-valid', [func, ('P', pm, [units.var(pl, 'v', 'i')], [('a', pl, [pl])]), ('E', 964, [965], None)], None)
+    add_group('function-name-as-variable', [func, ('P', pm, [units.var(pl, 'v', 'i')], [('a', pl, [fn])]), ('E', 964, [965], None)],
+              'undefined-var-named-like-function')
     for _ in range(3 if ctx.quick() else 40):
         decls, ns = units.gen_valid(rng, size=rng.choice([1, 2]))
         add_group('random-valid', decls, None)
